@@ -5,7 +5,9 @@
 // of a pipeline.
 use subprocess::{Exec, Popen, PopenConfig, Redirection};
 
-const REPORT: &str = "grep -E '^Sig(Blk|Ign)' /proc/$$/status";
+// the reporter reads its OWN status (inherited unchanged from the shell the library started): reading the shell's status from a child
+// races with the shell still being inside posix_spawn/vfork, where libc blocks every signal for a moment
+const REPORT: &str = "grep -E '^Sig(Blk|Ign)' /proc/self/status";
 fn parse(out: &str) -> Option<(u64, u64)> {
     let get = |k: &str| out.lines().find(|l| l.starts_with(k)).and_then(|l| u64::from_str_radix(l.split_whitespace().nth(1)?, 16).ok());
     Some((get("SigBlk:")?, get("SigIgn:")?))
